@@ -81,8 +81,29 @@ class Ctx:
         self.proof_ok = True
         self.corr_ok = True
         os.makedirs(BUILD, exist_ok=True)
+        self._prune_scratch()
         os.makedirs(EVIDENCE, exist_ok=True)
         os.makedirs(REPLAYS, exist_ok=True)
+
+    def _prune_scratch(self):
+        """Keep .build small: generated cases files older than 6 hours are scratch from earlier runs."""
+        d = os.path.join(BUILD, "cases")
+        if not os.path.isdir(d):
+            return
+        cutoff = time.time() - 6 * 3600
+        for root, dirs, files in os.walk(d, topdown=False):
+            for f in files:
+                p = os.path.join(root, f)
+                try:
+                    if os.path.getmtime(p) < cutoff:
+                        os.remove(p)
+                except OSError:
+                    pass
+            for x in dirs:
+                try:
+                    os.rmdir(os.path.join(root, x))
+                except OSError:
+                    pass
 
     # ---------------------------------------------------------------- logging
     def log(self, *a):
